@@ -187,13 +187,21 @@ def PlainRw (st : RwState) : Prop := st.old = false ∧ st.inGroup = false ∧ s
 theorem rewriteLine_empty (st : RwState) {raw : Str} (h : strip raw = []) : rewriteLine st raw = .ok st := by
   simp [rewriteLine, h]
 
+/-- what `_rewrite` does with a line that none of its patterns matches: inside a run of `Flavor=` lines it first
+opens the `if` block of the run -/
+theorem rewriteLine_neutral' {st : RwState} {raw l : Str} (h : strip raw = l)
+    (hn : neutral l = true) :
+    rewriteLine st raw = .ok (match st.newGroup with
+      | .inFlavors => { st with newGroup := .yes, out := st.out ++ [sIfOpen ++ st.cond ++ sIfClose, l] }
+      | _ => { st with out := st.out ++ [l] }) := by
+  simp only [neutral, Bool.and_eq_true, Bool.not_eq_true', Option.isNone_iff_eq_none, beq_iff_eq] at hn
+  obtain ⟨⟨⟨⟨⟨⟨⟨⟨⟨n1, n2⟩, n3⟩, n4⟩, n5⟩, n6⟩, n7⟩, n8⟩, n9⟩, n10⟩ := hn
+  simp only [rewriteLine, h, n1, n2, n3, n4, n5, n6, n7, n8, n9, n10]
+  cases st.old <;> cases st.inGroup <;> cases st.newGroup <;> simp
+
 theorem rewriteLine_neutral {st : RwState} (hst : PlainRw st) {raw l : Str} (h : strip raw = l) (hn : neutral l = true) :
     rewriteLine st raw = .ok { st with out := st.out ++ [l] } := by
-  obtain ⟨h1, h2, h3⟩ := hst
-  simp only [neutral, Bool.and_eq_true, Bool.not_eq_true', Option.isNone_iff_eq_none, beq_iff_eq] at hn
-  obtain ⟨⟨⟨⟨⟨⟨n1, n2⟩, n3⟩, n4⟩, n5⟩, n6⟩, n7⟩ := hn
-  simp only [rewriteLine, h, n1, n2, n3, n4, n5, n6, n7, h1, h2, h3]
-  simp
+  rw [rewriteLine_neutral' h hn, hst.2.2]
 
 /-! ### block lines are neutral -/
 
@@ -235,14 +243,18 @@ theorem synonyms_absent {l : Str} (h : 36 ∉ l) : synonyms.foldl (fun l p => re
 
 /-- a line whose first character starts none of the keywords of `_rewrite`, free of `$`, is neutral -/
 theorem neutral_of_head {l : Str} {c : Nat} {l' : Str} (hl : l = c :: l') (h36 : 36 ∉ l)
-    (hc : lowerCh c ≠ 102 ∧ lowerCh c ≠ 97 ∧ lowerCh c ≠ 113 ∧ lowerCh c ≠ 103) : neutral l = true := by
+    (hc : lowerCh c ≠ 102 ∧ lowerCh c ≠ 97 ∧ lowerCh c ≠ 113 ∧ lowerCh c ≠ 103 ∧ lowerCh c ≠ 99 ∧ lowerCh c ≠ 101
+      ∧ lowerCh c ≠ 112) : neutral l = true := by
   have k1 : kwEq sFile l = none := kwEq_none_head hl (by rfl : sFile = 102 :: _) hc.1
   have k2 : kwEq sAction l = none := kwEq_none_head hl (by rfl : sAction = 97 :: _) hc.2.1
   have k3 : kwEq sQualifiers l = none := kwEq_none_head hl (by rfl : sQualifiers = 113 :: _) hc.2.2.1
-  have k4 : lowerPrefix sGroupC l = none := lowerPrefix_none_head hl (by rfl : sGroupC = 103 :: _) hc.2.2.2
+  have k4 : lowerPrefix sGroupC l = none := lowerPrefix_none_head hl (by rfl : sGroupC = 103 :: _) hc.2.2.2.1
   have k5 : kwEq sFlavorKw l = none := kwEq_none_head hl (by rfl : sFlavorKw = 102 :: _) hc.1
+  have k6 : lowerPrefix sCommonC l = none := lowerPrefix_none_head hl (by rfl : sCommonC = 99 :: _) hc.2.2.2.2.1
+  have k7 : lowerPrefix sEndC l = none := lowerPrefix_none_head hl (by rfl : sEndC = 101 :: _) hc.2.2.2.2.2.1
+  have k8 : kwEq sProduct l = none := kwEq_none_head hl (by rfl : sProduct = 112 :: _) hc.2.2.2.2.2.2
   have hne : l.isEmpty = false := by rw [hl]; rfl
-  simp [neutral, hne, kwEqCap, k1, k2, k3, k4, k5, qualLine, kwLine, synonyms_absent h36]
+  simp [neutral, hne, kwEqCap, k1, k2, k3, k4, k5, k6, k7, k8, qualLine, kwLine, synonyms_absent h36]
 
 /-! ### from the raw line to the stripped one -/
 
@@ -409,7 +421,8 @@ theorem lineCh_elsePre {E : ElseLay} (hE : E.ok = true) : ([125] ++ E.s1 ++ E.kw
 /-- a line of line characters whose head starts no keyword of `_rewrite` survives stripping and rewriting -/
 theorem core_facts {core : Str} {c : Nat} {l' : Str} (hl : core = c :: l') (hall : core.all lineCh = true)
     (hs : Str.isSpace c = false)
-    (hc : lowerCh c ≠ 102 ∧ lowerCh c ≠ 97 ∧ lowerCh c ≠ 113 ∧ lowerCh c ≠ 103) :
+    (hc : lowerCh c ≠ 102 ∧ lowerCh c ≠ 97 ∧ lowerCh c ≠ 113 ∧ lowerCh c ≠ 103 ∧ lowerCh c ≠ 99 ∧ lowerCh c ≠ 101
+      ∧ lowerCh c ≠ 112) :
     coreOK core = true ∧ neutral core = true ∧ core.isEmpty = false ∧ core.all (· != 10) = true := by
   have h36 : 36 ∉ core := fun hm => by
     have := List.all_eq_true.mp hall 36 hm; revert this; decide
@@ -447,7 +460,7 @@ def coresOf (raws : List Str) : List Str := (raws.map strip).filter (fun l => !l
 theorem coresOf_append (a b : List Str) : coresOf (a ++ b) = coresOf a ++ coresOf b := by
   simp [coresOf]
 
-theorem rewriteLines_pass : ∀ (raws : List Str) (st : RwState), PlainRw st → raws.all passes = true →
+theorem rewriteLines_pass' : ∀ (raws : List Str) (st : RwState), st.newGroup ≠ .inFlavors → raws.all passes = true →
     rewriteLines st raws = .ok { st with out := st.out ++ coresOf raws } := by
   intro raws
   induction raws with
@@ -464,10 +477,17 @@ theorem rewriteLines_pass : ∀ (raws : List Str) (st : RwState), PlainRw st →
         rcases this with h | h
         · exact absurd h he
         · exact h
-      simp only [rewriteLines, rewriteLine_neutral hst rfl hn, Res.bind]
-      have hst' : PlainRw { st with out := st.out ++ [strip r] } := ⟨hst.1, hst.2.1, hst.2.2⟩
+      have e : rewriteLine st r = .ok { st with out := st.out ++ [strip r] } := by
+        rw [rewriteLine_neutral' rfl hn]
+        cases hg : st.newGroup <;> simp_all
+      simp only [rewriteLines, e, Res.bind]
+      have hst' : ({ st with out := st.out ++ [strip r] } : RwState).newGroup ≠ .inFlavors := hst
       rw [ih _ hst' hall.2]
       simp [coresOf, he, List.append_assoc]
+
+theorem rewriteLines_pass (raws : List Str) (st : RwState) (hst : PlainRw st) (h : raws.all passes = true) :
+    rewriteLines st raws = .ok { st with out := st.out ++ coresOf raws } :=
+  rewriteLines_pass' raws st (by rw [hst.2.2]; decide) h
 
 theorem classifyAll_cons {v : Variant} {pdir : Option Str} {l : Str} {c : Line} {ls : List Str} {cs : List Line}
     (h1 : classify v pdir l = .ok c) (h2 : classifyAll v pdir ls = .ok cs) :
